@@ -155,6 +155,8 @@ class Prop(BaseProp):
         # grammar allows (the table-backed instance parses them), now and then an empty or blank side
         r = _random.Random(len(repr(b)) * 3 + len(repr(a)))
         ta, tb = gen.tree_text(r, a, redundant=0.3), gen.tree_text(r, b, redundant=0.3)
+        if r.random() < 0.15:
+            tb = ta.swapcase() if r.random() < 0.5 else ta.upper()      # the same text in another letter case: unknown names differ
         if r.random() < 0.08:
             tb = r.choice(['', ' ', '\t '])
         if r.random() < 0.04:
@@ -166,6 +168,13 @@ class Prop(BaseProp):
                 except (impl.le.ExpressionError, TypeError):
                     return 'raises'
             gots = [ask(lambda: l1.is_equivalent(ta, tb)), ask(lambda: l1.contains(ta, tb))]
+            # strings are answered as the objects they parse to (on the same instance)
+            po_a, po_b = impl.outcome(lambda: l1.parse(ta)), impl.outcome(lambda: l1.parse(tb))
+            if P.is_ok(po_a) and P.is_ok(po_b) and po_a[1] is not None and po_b[1] is not None:
+                objs = [ask(lambda: l1.is_equivalent(po_a[1], po_b[1])), ask(lambda: l1.contains(po_a[1], po_b[1]))]
+                if gots != objs:
+                    return Verdict('spec', dict(case, texts=[ta, tb]), 'is_equivalent / contains answer two strings differently from the objects the strings parse to',
+                                   impl=gots, model=objs, tags=tags)
             ms = drv.call_many([(T('equivtext'), table, ta, tb), (T('containstext'), table, ta, tb)])
             ms = [x if x == 'raises' else bool(x) for x in ms]
             if gots != ms:
